@@ -46,6 +46,7 @@ class SigDirector:
         self.warn_count = 0
         self.delivered: dict[int, list[int]] = {}
         self.flags: list[str] = []
+        self.inst_id: dict[int, int] = {}          # instance number -> id() of the object (recorded at every access)
 
     def setup(self) -> None:
         from asphalt.core import Signal
@@ -66,20 +67,46 @@ class SigDirector:
             self.owner_classes.append(type(spec["name"], (base,), ns))
         self.instances = []
         for i, k in enumerate(c["instances"]):
-            if str(i) in c.get("copies", {}):
-                self.instances.append(None)     # made by copy.copy() of another instance at its first use
+            if str(i) in c.get("copies", {}) or str(i) in c.get("reborn", {}):
+                self.instances.append(None)     # made later: a copy of another instance, or a successor of a dead one
                 continue
             obj = self.owner_classes[k]()
             obj.v = c.get("values", {}).get(str(i), i)
+            obj.uid = i          # which instance this is (addresses get reused, equality may be by value)
             self.instances.append(obj)
 
     def instance(self, i: int) -> Any:
+        if self.instances[i] is None and str(i) in self.case.get("reborn", {}):
+            # another instance of the class is dropped and collected first: the new object may well get its
+            # address - it is a new instance all the same
+            import gc
+
+            k = self.case["reborn"][str(i)]
+            cls = self.owner_classes[self.case["instances"][i]]
+            old_id = self.inst_id.get(k)
+            self.instances[k] = None
+            gc.collect()
+            # make new instances until one lands on the dead one's address (CPython's allocator hands freed
+            # blocks out again quickly); if none does, any new instance will do
+            spare = []
+            obj = cls()
+            for _ in range(300):
+                if id(obj) == old_id:
+                    break
+                spare.append(obj)
+                obj = cls()
+            del spare
+            obj.v = self.case.get("values", {}).get(str(i), i)
+            obj.uid = i
+            self.instances[i] = obj
+            return obj
         if self.instances[i] is None:
             import copy
 
             src = self.instance(self.case["copies"][str(i)])
             obj = copy.copy(src) if i % 2 else copy.deepcopy(src)
             obj.v = self.case.get("values", {}).get(str(i), i)
+            obj.uid = i
             self.instances[i] = obj
         return self.instances[i]
 
@@ -103,7 +130,7 @@ class SigDirector:
             return lambda e: type(e) is not self.evcls[spec["c"]]
         if k == "chanIs":
             inst, attr = self.chan_key[spec["c"]]
-            return lambda e: e.source is self.instances[inst] and e.topic == attr
+            return lambda e: getattr(e.source, 'uid', None) == inst and e.topic == attr
         return lambda e: False
 
     async def main(self) -> dict[str, Any]:
@@ -118,7 +145,10 @@ class SigDirector:
                 k = op["op"]
                 res: list[str]
                 if k == "access":
-                    sig = getattr(self.instance(op["inst"]), op["attr"])
+                    owner = self.instance(op["inst"])
+                    self.inst_id[op["inst"]] = id(owner)
+                    sig = getattr(owner, op["attr"])
+                    del owner
                     n = self.chan_ids.get(id(sig))
                     if n is None:
                         n = self.chan_ids[id(sig)] = len(self.chans)
@@ -139,6 +169,9 @@ class SigDirector:
                     if op["s"] in self.consumers:
                         res = ["badOp"]
                     else:
+                        if any(c >= len(self.chans) for c in op["chans"]):
+                            out.append(["NO-SUCH-CHANNEL"])
+                            continue
                         sigs = [self.chans[c] for c in op["chans"]]
                         if op.get("unbound"):
                             sigs = sigs + [getattr(self.owner_classes[op["ucls"]], op["uattr"])]
@@ -197,6 +230,8 @@ class SigDirector:
         if op["chan"] is None:
             sig = getattr(self.owner_classes[op["ucls"]], op["uattr"])
         else:
+            if op["chan"] >= len(self.chans):
+                return ["NO-SUCH-CHANNEL"]      # (an earlier access did not produce the bound signal it should have)
             sig = self.chans[op["chan"]]
         with warnings.catch_warnings(record=True) as wl:
             warnings.simplefilter("always")
@@ -249,7 +284,7 @@ class Consumer:
         d.delivered[self.s].append(ev.seq)
         d.note(f"got {self.s} {ev.seq}")
         ok = isinstance(ev.time, float) and any(
-            ev.source is d.instances[inst] and ev.topic == attr
+            getattr(ev.source, 'uid', None) == inst and ev.topic == attr
             for (inst, attr), sig in zip(d.chan_key, d.chans) if any(sig is x for x in self.sigs))
         if not ok:
             d.flags.append(f"event {ev.seq} delivered to stream {self.s} with wrong source/topic/time")
@@ -300,6 +335,11 @@ class Consumer:
         except UnboundSignal:
             self.open = False
             d.results[opidx] = ["unbound"]
+        except Exception as e:  # noqa: BLE001 - subscribing to / leaving a stream never fails for a bound signal
+            self.open = False
+            self.pulling = False
+            d.flags.append(f"stream {self.s}: subscribing, receiving or leaving raised {type(e).__name__}: {e}")
+            d.note(f"streamError {self.s}")
 
 
 def canon(res: list[str]) -> list[str]:
